@@ -134,6 +134,12 @@ func Call(c *rosmar.Collection, in In) (out Out) {
 			out.Saw, out.SawNil = string(cur), cur == nil
 			return []byte(appendTok(string(cur), cur != nil, in.Token)), nil, false, nil
 		})
+	case OUpdDel:
+		out.Cas, err = c.Update(in.Key, 0, func(cur []byte) ([]byte, *uint32, bool, error) {
+			out.Calls++
+			out.Saw, out.SawNil = string(cur), cur == nil
+			return nil, nil, true, nil
+		})
 	case OWriteUpd:
 		out.Cas, err = c.WriteUpdateWithXattrs(ctx, in.Key, xNames, 0, nil, &sgbucket.MutateInOptions{},
 			func(doc []byte, xattrs map[string][]byte, cas uint64) (sgbucket.UpdatedDoc, error) {
@@ -234,7 +240,7 @@ func genOp(r *rng.R, w Workload, client int, n *int, lastCas, staleCas map[strin
 		return In{Kind: OIncr, Key: key, Amt: uint64(1 + r.Intn(9)), Def: 1000}
 	}
 	key := rng.Pick(r, w.DocKeys)
-	kinds := []string{OGet, OGetX, OExists, OSet, OAdd, OWriteCas, ORemove, ODelete, OUpdate, OWriteUpd, OSetX, OSubDoc, OTouch}
+	kinds := []string{OGet, OGetX, OExists, OSet, OAdd, OWriteCas, ORemove, ODelete, OUpdate, OWriteUpd, OSetX, OSubDoc, OTouch, OUpdDel}
 	ws := make([]int, len(kinds))
 	for i, k := range kinds {
 		ws[i] = w.Weights[k]
